@@ -58,13 +58,16 @@ fn walk<I: MonItem>(
     if let Some(l) = &node.left {
         walk(l, child_inh.as_ref(), out, errs, depth + 1, maxdepth);
     }
+    // (inherited modifications are relative to the first element of this subtree)
+    let left_count = out.len() - start;
     let mut e = node.item.elem();
     if let Some(q) = inherited {
-        I::apply_elem(&mut e, q);
+        I::apply_elem_at(&mut e, q, left_count);
     }
     out.push((node.item.id(), e));
     if let Some(r) = &node.right {
-        walk(r, child_inh.as_ref(), out, errs, depth + 1, maxdepth);
+        let right_inh = child_inh.as_ref().map(|m| I::shift(m, left_count + 1));
+        walk(r, right_inh.as_ref(), out, errs, depth + 1, maxdepth);
     }
     let elems: Vec<I::Elem> = out[start..].iter().map(|x| x.1.clone()).collect();
     let want = I::fold(&elems);
@@ -369,7 +372,7 @@ impl<'a, I: MonItem> World<'a, I> {
         single.root_mut().unwrap().attach(&m);
         let item = single.root.take().unwrap().item;
         let mut e2 = e;
-        I::apply_elem(&mut e2, &m);
+        I::apply_elem_at(&mut e2, &m, 0);
         lib!(self.pool[i].treap.insert_at(pos, item));
         self.pool[i].model.insert(pos, (id, e2));
     }
@@ -477,8 +480,8 @@ impl<'a, I: MonItem> World<'a, I> {
         self.note(format!("attach at root of pool[{}]: {:?}", i, m));
         if let Some(root) = lib!(self.pool[i].treap.root_mut()) {
             root.attach(&m);
-            for x in self.pool[i].model.iter_mut() {
-                I::apply_elem(&mut x.1, &m);
+            for (idx, x) in self.pool[i].model.iter_mut().enumerate() {
+                I::apply_elem_at(&mut x.1, &m, idx);
             }
             self.rep.inc("lazy_attachments");
         }
@@ -495,8 +498,8 @@ impl<'a, I: MonItem> World<'a, I> {
         let cm = bm.split_off(r - l);
         if let Some(root) = lib!(b.root_mut()) {
             root.attach(&m);
-            for x in bm.iter_mut() {
-                I::apply_elem(&mut x.1, &m);
+            for (idx, x) in bm.iter_mut().enumerate() {
+                I::apply_elem_at(&mut x.1, &m, idx);
             }
             self.rep.inc("lazy_attachments");
         }
